@@ -44,9 +44,12 @@ EXTRACT ("C09Mat", m22_scale, "M22.scale", { IN (Matrix22, m); IN (Vec2, s); m.s
 // ---------------------------------------------------------------- frame builders (Vec3::length opaque)
 EXTRACT ("C09Frame", fr_alignZ, "Frame.alignZAxisWithTargetDir",
          { IN (Vec3, targetDir); IN (Vec3, upDir); Matrix44<T> result (UNINITIALIZED); alignZAxisWithTargetDir (result, targetDir, upDir); c.out (result); })
-EXTRACT ("C09Frame", fr_rotationMatrix, "Frame.rotationMatrix", { IN (Vec3, from); IN (Vec3, to); c.out (rotationMatrix (from, to)); })
-EXTRACT_OPT ("C09Frame", fr_rotationMatrixUp, "Frame.rotationMatrixWithUpDir", symns::Opts ().paths (8000),
-             { IN (Vec3, fromDir); IN (Vec3, toDir); IN (Vec3, upDir); c.out (rotationMatrixWithUpDir (fromDir, toDir, upDir)); })
+// rotationMatrix(from,to) = Quat::setRotation(from,to).toMatrix44(): the two halves are extracted separately (inlined, the 79-path
+// tree has ~850 shared sub-terms and Lean's elaborator runs out of recursion depth); sym_c09up.cpp extracts rotationMatrix itself
+// with Quat::setRotation as an opaque call of `Frame.quatSetRotation`.
+EXTRACT ("C09Frame", fr_quatSetRotation, "Frame.quatSetRotation", { IN (Quat, q); IN (Vec3, fromDir); IN (Vec3, toDir); q.setRotation (fromDir, toDir); c.out (q); })
+EXTRACT ("C09Frame", fr_quatToMatrix44, "Frame.quatToMatrix44", { IN (Quat, q); c.out (q.toMatrix44 ()); })
+// rotationMatrixWithUpDir: extracted by sym_c09up.cpp (module C09Up) with alignZAxisWithTargetDir opaque (inlined: 1201 paths)
 EXTRACT ("C09Frame", fr_computeLocalFrame, "Frame.computeLocalFrame", { IN (Vec3, p); IN (Vec3, xDir); IN (Vec3, normal); c.out (computeLocalFrame (p, xDir, normal)); })
 EXTRACT ("C09Frame", fr_addOffset, "Frame.addOffset",
          { IN (Matrix44, inMat); IN (Vec3, tOffset); IN (Vec3, rOffset); IN (Vec3, sOffset); IN (Matrix44, ref); c.out (addOffset (inMat, tOffset, rOffset, sOffset, ref)); })
